@@ -785,6 +785,19 @@ class C20:
                                     (address, t.txid[:16], o.output_n, o.spent, derived))
                     self.facts_spent.setdefault((t.txid, o.output_n), set()).add(derived)
                     w.probe('spent_flag_derived_from_complete_history')
+        if te and isinstance(te[-1]['ret'], list) and len(te[-1]['args']) > 2 and not self.poisoned():
+            # a full provider page means there may be more: the cache must not then record the address as covered
+            # beyond the block of the last transaction it was given
+            page, asked = te[-1]['ret'], te[-1]['args'][2]
+            heights = [t.block_height for t in page if is_tx(t) and t.block_height]
+            if isinstance(asked, int) and asked > 0 and len(page) >= asked and heights:
+                row = self.cached_address_cover(srv, address)
+                w.probe('full_provider_page')
+                if row is not None and row[0] is not None and row[0] > max(heights):
+                    w.violation('cache_claims_more_than_it_was_given', sig,
+                                'gettransactions(%s): the provider page was full (%d of %d asked, last block %d) but the '
+                                'cache records the address as complete up to block %d' %
+                                (address, len(page), asked, max(heights), row[0]))
         ids = [t.txid for t in ret if is_tx(t)]
         self.check_cache_part_after(srv, address, kw.get('after_txid'), ids[:n_cache])
         if len(set(ids)) != len(ids) and not self.poisoned() and n_cache and te and len(te[-1]['args']) > 1 and \
@@ -858,6 +871,16 @@ class C20:
                 con.close()
         except Exception:
             return ('unreadable',)
+
+    def cached_address_cover(self, srv, address):
+        try:
+            con = sqlite3.connect('file:%s?mode=ro' % srv.cache_uri, uri=True, timeout=0.05)
+            try:
+                return con.execute('select last_block from cache_address where address = ?', (address,)).fetchone()
+            finally:
+                con.close()
+        except Exception:
+            return None
 
     def cached_ids_of(self, srv, address):
         try:
